@@ -72,6 +72,10 @@ impl UCICommand {
             None => None,
         };
 
+        if value_idx.is_some_and(|end_idx| end_idx <= name_idx) {
+            return Err("The value must come after the name in setoption!".to_string());
+        }
+
         let name = value_idx
             .map_or_else(
                 || args[name_idx + 1..].join(" "),
@@ -79,7 +83,9 @@ impl UCICommand {
             )
             .to_lowercase();
 
-        assert!(!name.is_empty(), "Name should not be empty!");
+        if name.is_empty() {
+            return Err("Name should not be empty!".to_string());
+        }
 
         Ok(Self::SetOption { name, value })
     }
